@@ -6,6 +6,7 @@ import LoomVerif.Props.C08
 open LoomVerif
 
 #print axioms Notify.notify_effect
+#print axioms Notify.wakes_blocked_waiter_only
 #print axioms Notify.wait_first_half
 #print axioms Notify.wait_second_half
 #print axioms NotifyKeep_spelled_out
@@ -24,9 +25,16 @@ open LoomVerif
 #print axioms Wait.helpers_keep_flags
 #print axioms Wait.no_other_op_notifies
 #print axioms Park.setUnparked_table
-#print axioms Park.token
+#print axioms Park.unpark_wakes_only_parked
+#print axioms Park.token_survives_blocking
+#print axioms Park.park_consumes_token
 #print axioms Park.unpark
-#print axioms Park.unpark_wakes_lock_waiter
+#print axioms Park.frame_defs
+#print axioms Park.op_frame
+#print axioms Park.step_frame
+#print axioms Park.unpark_then_park_never_blocks
+#print axioms Park.unpark_op_then_park_never_blocks
+#print axioms Park.unpark_keeps_lock_waiter_blocked
 #print axioms Park.unpark_raises_causality_at_once
 #print axioms Release.keeps_token
 #print axioms Park.release_keeps_token
